@@ -54,19 +54,20 @@ CLAUSES = {"setup_once_before_claims", "at_most_one_claim_per_partition", "exact
            "claim_starts_at_committed_or_initial", "cleanup_once_after_claims_returned", "final_commit_after_cleanup",
            "consume_returns_last", "requests_carry_issued_identity", "fenced_member_rejoins_fresh",
            "no_skip_across_sessions", "consume_hang", "close_hang", "consume_panic", "channels_closed_after_close",
-           "identity_kept_unless_fenced", "leave_on_close", "heartbeats_until_final_commit",
+           "identity_kept_unless_fenced", "leave_on_close", "heartbeats_until_final_commit", "setup_within_retry_budget",
            "sync_plan_complete"}   # sync_plan_complete decides part of C08 (assignments as sent through SyncGroup); vlib reports under C07
-SHUTDOWN_CLAUSES = {"consume_hang", "close_hang", "consume_panic", "channels_closed_after_close"}
+SHUTDOWN_CLAUSES = {"consume_hang", "close_hang", "consume_panic", "channels_closed_after_close", "setup_within_retry_budget"}
 ONLY = ["group_*"]
 STRATEGIES = ["range", "roundrobin", "sticky"]
 
 # non-vacuity: broken variants of the model and the clause family each one has to violate
 BUGS_QUICK = ["fence_keeps_id_without_budget", "final_commit_one_short", "commit_keeps_stale_coordinator", "setup_fail_blocks_release",
-              "hb_stops_before_cleanup"]
-BUG_EXPECT = {"claim_fail_no_cancel": "ClaimFailEndsSession", "setup_fail_blocks_release": "SetupFailureReturns"}   # default: NoViolation
+              "hb_stops_before_cleanup", "lookup_loop_ignores_close"]
+BUG_EXPECT = {"claim_fail_no_cancel": "ClaimFailEndsSession", "setup_fail_blocks_release": "SetupFailureReturns",
+              "lookup_loop_ignores_close": "SetupFailureReturns"}   # default: NoViolation
 BUG_BASE = {"fence_keeps_id_without_budget": "Group.mc.retry.cfg", "final_commit_one_short": "Group.mc.retry.cfg",
             "claim_fail_no_cancel": "Group.mc.retry.cfg", "commit_keeps_stale_coordinator": "Group.mc.retry.cfg",
-            "setup_fail_blocks_release": "Group.mc.retry.cfg"}   # default: Group.bug.cfg
+            "setup_fail_blocks_release": "Group.mc.retry.cfg", "lookup_loop_ignores_close": "Group.mc.retry.cfg"}   # default: Group.bug.cfg
 BUGS_ALL = BUGS_QUICK + ["skip_cleanup", "claim_fail_no_cancel", "keep_member_id", "claim_at_initial", "stale_hb_identity", "skip_setup", "no_final_commit", "cleanup_early", "stale_commit_identity"]
 
 
@@ -177,9 +178,9 @@ def stratified(cases, rng, per_class, extra, fine):
 def gen_cases(ctx, out):
     thorough = ctx.tier == "thorough"
     # (cfg, family, TLC workers, simulate num, per-class quota, extra)
-    plan = [("Group.gen.life1.cfg", "life1", 4, 0, 2, 6), ("Group.gen.life2.cfg", "life2", 3, 0, 2, 4),
-            ("Group.gen.faults.cfg", "faults", 3, 0, 2, 4), ("Group.gen.resume.cfg", "resume", 2, 0, 2, 6),
-            ("Group.gen.dfault.cfg", "dfault", 2, 0, 2, 2)]
+    plan = [("Group.gen.life1.cfg", "life1", 4, 0, 1, 8), ("Group.gen.life2.cfg", "life2", 3, 0, 1, 6),
+            ("Group.gen.faults.cfg", "faults", 3, 0, 2, 4), ("Group.gen.resume.cfg", "resume", 2, 0, 1, 6),
+            ("Group.gen.dfault.cfg", "dfault", 2, 0, 1, 2)]
     if thorough:
         plan = [("Group.gen.life1.cfg", "life1", 4, 0, 6, 300), ("Group.gen.life2.cfg", "life2", 3, 0, 6, 200),
                 ("Group.gen.faults.cfg", "faults", 3, 0, 6, 400), ("Group.gen.resume.cfg", "resume", 2, 0, 6, 250),
@@ -188,7 +189,7 @@ def gen_cases(ctx, out):
     else:
         # (quick leaves the simulated big configuration and the generated empty-assignment family to thorough; the fixed
         # shutdown corpus keeps empty assignments in quick)
-        plan += [("Group.gen.twoq.cfg", "two", 6, 0, 2, 8)]
+        plan += [("Group.gen.twoq.cfg", "two", 6, 0, 1, 10)]
     with concurrent.futures.ThreadPoolExecutor(max_workers=8) as ex:
         futs = [ex.submit(gen_one, ctx, cfg, w, sim, ctx.seed) for cfg, _, w, sim, _, _ in plan]
         res = [f.result() for f in futs]
@@ -228,7 +229,7 @@ def gen_cases(ctx, out):
             n += 1
         # one partition of the subscribed topic is leaderless in the metadata when the leader balances (C08 on the wire:
         # it still has to be assigned; its claim then fails to start and ends the session - code behaviour, accepted)
-        for sc in leaderless_scenarios() + retry_scenarios() + move_scenarios() + hbkeep_scenarios():
+        for sc in leaderless_scenarios() + npchange_scenarios() + retry_scenarios() + move_scenarios() + hbkeep_scenarios():
             f.write(json.dumps(sc, separators=(",", ":")) + "\n")
             n += 1
         # partition-count change while a session runs (configuration family, not a model action)
@@ -295,13 +296,19 @@ def shutdown_scenarios():
     # session set-up fails after join and sync succeeded (initial OffsetFetch refused for good / dropped, or Setup returns an error):
     # Consume returns the error, the next call works, Close returns - also when Close races with the failing set-up
     ok = _sess("early", 1, 1)
-    for kind, at in [("ofetch_fail", "sync"), ("ofetch_fail_conn", "sync"), ("setup_error", "setup")]:
+    for kind, at in [("ofetch_fail", "sync"), ("ofetch_fail_conn", "sync"), ("ofetch_fail_load", "sync"), ("setup_error", "setup")]:
         out.append(_scen("sd-%s" % kind, [_client("c1", [_sess("drain", 1, 1, (kind, at)), ok])]))
         out.append(_scen("sd-%s-then-close" % kind, [_client("c1", [_sess("drain", 1, 1, (kind, at))])]))
-    for kind, at in [("ofetch_fail_close", "sync"), ("setup_error_close", "setup")]:
+    for kind, at in [("ofetch_fail_close", "sync"), ("ofetch_fail_load_close", "sync"), ("setup_error_close", "setup")]:
         out.append(_scen("sd-%s" % kind, [_client("c1", [_sess("drain", 1, 1, (kind, at))])]))
     out.append(_scen("sd-setup_error-two", [_client("c1", [_sess("drain", 1, 1, ("setup_error", "setup")), _sess("drain", 1, 1, ("close", "claim"))]),
                                             _client("c2", [_sess("drain", 1, 1), _sess("drain", 1, 1, ("close", "claim"))])]))
+    # the coordinator cannot be found (from the start / after a NOT_COORDINATOR answer to JoinGroup): Consume keeps looking it
+    # up; Close during that retry loop has to end it
+    out.append(_scen("sd-nocoord-close", [_client("c1", [_sess("drain", 1, 1, ("nocoord_close", "join"))])]))
+    out.append(_scen("sd-nocoord-close-rr1", [_client("c1", [_sess("drain", 1, 1, ("nocoord_close", "join"))])], rretry=1))
+    out.append(_scen("sd-nocoord-late-close", [_client("c1", [_sess("drain", 1, 1, ("nocoord_late_close", "join"), jf=["notcoord"])])]))
+    out.append(_scen("sd-nocoord-late-close-2nd", [_client("c1", [_sess("early", 1, 1), _sess("drain", 1, 1, ("nocoord_late_close", "join"), jf=["notcoord"])])]))
     # double Close of the group
     out.append(_scen("sd-double-close", [_client("c1", [_sess("drain", 1, 1, ("close", "claim"))])], dclose=True))
     out.append(_scen("sd-double-close-idle", [_client("c1", [_sess("early", 1, 1)])], dclose=True))
@@ -382,6 +389,21 @@ def move_scenarios():
                             _client("c2", [_sess("drain", 1, 1), ok])], np=2, loglen=3, nonet=False)
     sc["fam"] = "move"
     out.append(sc)
+    return out
+
+
+def npchange_scenarios():
+    """the partition count of the subscribed topic changes between two generations (expanded 3 -> 5; re-created 3 -> 2) right
+    after c1's first Consume call returned: the leader's next plan must be complete w.r.t. the metadata the cluster serves
+    at the time of the join (no background refresh: Metadata.RefreshFrequency stays at 10 minutes)"""
+    out = []
+    for members in (1, 2):
+        for strat in STRATEGIES:
+            for name, npthen in (("grow", 5), ("shrink", 2)):
+                clients = [_client("c%d" % (i + 1), [_sess("early", 1, 1), _sess("early", 1, 1)]) for i in range(members)]
+                sc = _scen("npchange-%s-%d-%s" % (name, members, strat), clients, np=3, strategy=strat, npthen=npthen, nonet=False)
+                sc["fam"] = "npchange"
+                out.append(sc)
     return out
 
 
@@ -506,11 +528,11 @@ def shutdown_family(ctx):
 
 
 def plan_family(ctx):
-    """for C08 (every plan handed out through SyncGroup is valid and complete): the leaderless corpus on the real consumer
-    group - the partition list the group leader feeds the strategy must contain every partition of the topic, also the ones
-    without a leader. Returns (violations of sync_plan_complete, stats dict, trace path)."""
+    """for C08 (every plan handed out through SyncGroup is valid and complete): the leaderless corpus and the partition-count
+    change corpus on the real consumer group - the partition list the group leader feeds the strategy must contain every
+    partition the cluster's metadata lists at the time of the join, also the ones without a leader, and no other. Returns (violations of sync_plan_complete, stats dict, trace path)."""
     cases = os.path.join(ctx.scratch, "c07_plan_cases.ndjson")
-    scs = leaderless_scenarios()
+    scs = leaderless_scenarios() + npchange_scenarios()
     with open(cases, "w") as f:
         for sc in scs:
             f.write(json.dumps(sc, separators=(",", ":")) + "\n")
